@@ -281,7 +281,9 @@ func checkC10(p *Program, r *Report) {
 		okScript := false
 		if f, base, ok := fieldLoad(hcall.Call.Args[1]); ok && f.Name() == "PkScript" {
 			if ld, ok := base.(*ssa.UnOp); ok {
-				if ia, ok := ld.X.(*ssa.IndexAddr); ok && ia.X == outs && ia.Index == idx {
+				// the same list: one SSA value, or two loads of the same field path (an index loop re-reads msgTx.TxOut for
+				// the bound and for the element; benign round 4, C10-y1)
+				if ia, ok := ld.X.(*ssa.IndexAddr); ok && ia.Index == idx && (ia.X == outs || tb.Term(ia.X).String() == tb.Term(outs).String()) {
 					okScript = true
 				}
 			}
